@@ -425,8 +425,9 @@ func permuteStrings(xs []string, f func([]string)) {
 }
 
 func c19Docs(thorough bool) (orderDocs, precDocs []c19Doc) {
-	keyForms := []string{"h", "https://h/v1", "http://h", "h/path", "//h", "https://h"}
-	lookups := []string{"h", "g", "h/path", "other"}
+	// also the same machine on another port: a different registry host as far as lookups go
+	keyForms := []string{"h", "https://h/v1", "http://h", "h/path", "//h", "https://h", "https://h:5000/v1/", "h:5000"}
+	lookups := []string{"h", "g", "h/path", "other", "h:5000"}
 	kinds3 := []string{"userpass", "auth", "identity"}
 	maxKeys := 3
 	for mask := 0; mask < 1<<len(keyForms); mask++ {
@@ -533,7 +534,7 @@ func c19Check(r *vcore.Run) vcore.Coverage {
 		"map iteration inside decodeConfigFile is owned through the vsync.MapIter hook installed by the build overlay: every order of the initial keys, and for entries inserted during the loop both 'visited at any later point' and 'never visited'",
 	}
 	return vcore.Coverage{Evaluations: execs, Nontrivial: int64(len(orderDocs) + len(precDocs)), Exhaustive: true,
-		Rule: fmt.Sprintf("%d documents with <= 3 keys for one host out of {h, https://h/v1, http://h, h/path, //h, https://h} (+ unrelated host) x entry kinds, each loaded through LoadWithEnv under EVERY map iteration order; %d precedence documents (14 entry kinds incl. malformed base64, no colon, empty user, NUL, colon in password, ambiguous) x credsStore x credHelpers x 5 helper behaviours (also per-host helper = default store, per-host entry naming no helper, helper for another host only) with every permutation of repeated lookups on one ConfigFile; evaluations = loads", len(orderDocs), len(precDocs))}
+		Rule: fmt.Sprintf("%d documents with <= 3 keys for one host out of {h, https://h/v1, http://h, h/path, //h, https://h, https://h:5000/v1/, h:5000} (+ unrelated host) x entry kinds, each loaded through LoadWithEnv under EVERY map iteration order; %d precedence documents (14 entry kinds incl. malformed base64, no colon, empty user, NUL, colon in password, ambiguous) x credsStore x credHelpers x 5 helper behaviours (also per-host helper = default store, per-host entry naming no helper, helper for another host only) with every permutation of repeated lookups on one ConfigFile; evaluations = loads", len(orderDocs), len(precDocs))}
 }
 
 func c19Replay(r *vcore.Run, sub string, raw json.RawMessage) {
